@@ -112,6 +112,10 @@ def m_len(eng, st, args, kw, node):
         if k[0] == 'set':
             used(eng, "len(set) = cardinality (ghost counter)")
             return vint(st.heap.rd('len', v.t))
+    if isinstance(k, tuple) and k[0] == 'opaque' and k[1] == 'envstr':
+        n = z3.Int(fresh_name('strlen'))
+        st.assume(n >= 0)
+        return vint(n)
     if k == 'str':
         # only used on os.environ values
         n = z3.Int(fresh_name('strlen'))
